@@ -410,9 +410,26 @@ class Gen(object):
     return ['AddColumn', t, self.fresh("s"), {'type': 'Any', 'isFormula': True, 'formula': f}]
 
   # ---- display columns, rules, two-way references, choices ----
+  def ua_ref_into_summary(self, view, tid):
+    """A formula column of type Ref:<summary table> that looks its summary row up (then display columns
+    can hang off it: removing the summary table's last widget makes a chain of auto-removals)."""
+    r = self.rng
+    sums = [t for t in view.user_tables(summary=True) if view.tables[t]["summary"]]
+    r.shuffle(sums)
+    for s in sums:
+      rec = view.tables[s]["rec"]
+      src = rec.summarySourceTable.tableId
+      gb = [c for c in rec.columns if c.summarySourceCol]
+      if src in view.tables and len(gb) == 1 and not view.tables[src]["summary"]:
+        k = gb[0].colId
+        srck = gb[0].summarySourceCol.colId
+        return ['AddColumn', src, self.fresh("summ"), {'type': 'Ref:' + s, 'isFormula': True,
+                                                       'formula': '%s.lookupOne(%s=$%s)' % (s, k, srck)}]
+    return None
+
   def ua_display_formula(self, view, tid):
     r = self.rng
-    refcols = [c for c in view.data_cols(tid) if view.tables[tid]["cols"][c][1].startswith('Ref')]
+    refcols = [c for c in view.all_cols(tid) if view.tables[tid]["cols"][c][1].startswith('Ref')]
     if not refcols:
       return None
     c = r.choice(refcols)
@@ -420,7 +437,7 @@ class Gen(object):
     tgt = typ.split(':')[1]
     if tgt not in view.tables:
       return None
-    tcols = view.data_cols(tgt)
+    tcols = view.data_cols(tgt) or [x for x in view.all_cols(tgt) if x != 'group']
     if not tcols:
       return None
     formula = "$%s.%s" % (c, r.choice(tcols)) if r.random() < 0.8 else ""
@@ -610,10 +627,10 @@ PROFILES = {
             "remove_column": 5, "rename_column": 4, "modify_column": 5, "rename_table": 2,
             "remove_table": 3, "add_table": 4, "add_view": 6, "create_section": 10, "remove_section": 8,
             "remove_view": 5, "display_formula": 8, "add_rule": 6, "add_ref_column": 5},
-  "summary": {"add_records": 18, "update_records": 18, "remove_records": 10, "add_column": 5,
+  "summary": {"ref_into_summary": 5, "display_formula": 6, "remove_view": 3, "add_records": 18, "update_records": 18, "remove_records": 10, "add_column": 5,
               "remove_column": 3, "rename_column": 4, "modify_column": 6, "rename_table": 2,
               "add_table": 2, "create_summary": 12, "update_summary": 8, "detach_summary": 3,
-              "remove_section": 4, "add_summary_formula": 6, "remove_view": 2},
+              "remove_section": 6, "add_summary_formula": 6},
   "twoway": {"add_records": 14, "update_records": 6, "update_refs": 25, "remove_records": 12,
              "add_ref_column": 8, "add_reverse": 12, "switch_ref_type": 8, "remove_column": 4,
              "rename_column": 3, "add_table": 3, "remove_table": 1},
